@@ -693,6 +693,7 @@ TAG_KEYS.update({
     "bracket-hidden-in-braces": K_BRACEHIDE,
     "str-with-brace-group": K_STRGROUP,
     "Number-then-brace-argument": K_LOOKAHEAD,
+    "Number-then-register": K_INTREGMUL,
 })
 
 
@@ -703,7 +704,7 @@ def word(draw, maxlen=4):
 
 
 @st.composite
-def text_value(draw, closer=None, forbid="", allow_group=True, tags=None, depth=0):
+def text_value(draw, closer=None, forbid="", allow_group=True, tags=None, depth=0, allow_escape=False):
     """-> (source text, expected text).  Words, punctuation, nested brace groups, nested
     same-kind brackets (when closer given) and brackets hidden inside braces."""
     ex = excluded_tags()
@@ -720,6 +721,12 @@ def text_value(draw, closer=None, forbid="", allow_group=True, tags=None, depth=
             p = draw(st.sampled_from([c for c in PUNCT if c not in forbid]))
             src.append(p)
             exp.append(p)
+        elif k == 11 and allow_escape and closer in ("]", ">"):
+            # the control symbol \] (\>, \<) is not the delimiter ] (>, <); it contributes no text
+            c = draw(st.sampled_from(["\\]"] if closer == "]" else ["\\>", "\\<"]))
+            src.append(c)
+            if tags is not None:
+                tags.append("escaped-delimiter-inside")
         elif k in (7, 8) and allow_group:
             s2, e2 = draw(text_value(None, "", True, tags, depth + 1))
             src.append("{" + s2 + "}")
@@ -727,7 +734,7 @@ def text_value(draw, closer=None, forbid="", allow_group=True, tags=None, depth=
             if tags is not None:
                 tags.append("nested-brace-group")
         elif k == 9 and closer:
-            s2, e2 = draw(text_value(closer, forbid, allow_group, tags, depth + 1))
+            s2, e2 = draw(text_value(closer, forbid, allow_group, tags, depth + 1, allow_escape))
             src.append(opener + s2 + closer)
             exp.append(opener + e2 + closer)
             if tags is not None:
@@ -760,7 +767,7 @@ def arg_value(draw, spec, tags):
     typ = spec["type"]
     closer = {"[]": "]", "()": ")", "<>": ">"}.get(spec["delim"])
     if typ == "none":
-        s, e = draw(text_value(closer, "", True, tags))
+        s, e = draw(text_value(closer, "", True, tags, 0, True))
         return s, {"text": e}, False
     if typ == "str":
         t2 = []
@@ -826,7 +833,7 @@ def arg_value(draw, spec, tags):
             if k == 0:
                 src.append(pad(draw, key))
                 exp[key] = True
-            elif k == 1:
+            elif k in (1, 2):
                 a, b = draw(word()), draw(word())
                 src.append(pad(draw, key) + "=" + pad(draw, "{" + a + "," + b + "}"))
                 exp[key] = a + "," + b
@@ -985,12 +992,15 @@ def signature_case(draw):
         if prev is not None and prev["kind"] == "tex":
             if sl["kind"] in ("bare", "tex", "mod"):
                 gap = " "                      # the blank that ends the literal
-            if src[:1] in "{\\" and prev["after"] in ("dec", "oct", "hex"):
-                if "Number-then-brace-argument" in ex:
-                    # cannot be rendered without the known construct: end the literal with \relax?
-                    # no: \relax would become the next argument.  Give up on this draw.
+            if src.lstrip(" ")[:1] in ("{", "\\") and prev["after"] in ("dec", "oct", "hex"):
+                # the look-ahead after an integer constant executes a following `{` / control
+                # sequence, and multiplies by a following register
+                tag = "Number-then-register" if sl["kind"] == "tex" else "Number-then-brace-argument"
+                if tag in ex:
+                    # cannot be rendered without the known construct (\relax would become the
+                    # next argument): give up on this draw
                     return draw(signature_case())
-                tags.append("Number-then-brace-argument")
+                tags.append(tag)
         if (prev is None or ends_cs(text)) and src[:1].isalpha() and not gap:
             gap = " "
         text += gap + src
@@ -1164,7 +1174,8 @@ def texnum_rejects(case):
     return False
 
 
-SIG_TAG_PRIORITY = ["bracket-hidden-in-braces", "str-with-brace-group", "Number-then-brace-argument"]
+SIG_TAG_PRIORITY = ["bracket-hidden-in-braces", "str-with-brace-group", "Number-then-brace-argument",
+                    "Number-then-register"]
 
 
 def check_signature(case):
@@ -1185,7 +1196,8 @@ def check_signature(case):
         feats.add("cont:modifier-char-that-must-not-be-taken")
     typed = any(not t.startswith(("none/", "str/")) for t in case["types"])
     nontrivial = bool(set(case["tags"]) & set(["optional-absent", "nested-same-kind-bracket",
-                                               "bracket-hidden-in-braces"])) or typed
+                                               "bracket-hidden-in-braces",
+                                               "escaped-delimiter-inside"])) or typed
     reset_parameter_state()
     tex = fresh_tex()
     doc = tex.ownerDocument
@@ -1203,6 +1215,9 @@ def check_signature(case):
         for t in SIG_TAG_PRIORITY:
             if t in case["tags"]:
                 return TAG_KEYS[t]
+        if any(t.startswith("Number/") for t in case["types"]) and \
+                re.search(r"[0-9A-F][ \n]+[ \n+-]*\\(%s)(?![A-Za-z])" % "|".join(REG_NAMES), case["call"]):
+            return K_INTREGMUL          # (case written without generator tags, e.g. a hand-made replay)
         return default
 
     if err is not None:
@@ -1276,9 +1291,9 @@ RULE_LIT = ("literal = sign run (<=5 of + - blank) + decimal | 'octal | \"HEX | 
 
 STREAMS = [
     Stream("signatures", "given", lambda tier: signature_case(), check_signature,
-           budget={"quick": 1200, "thorough": 30000}, timeout=10.0, rule=RULE_SIG),
+           budget={"quick": 1000, "thorough": 25000}, timeout=10.0, rule=RULE_SIG),
     Stream("literals", "given", lambda tier: literal_case(), check_literal,
-           budget={"quick": 3000, "thorough": 75000}, timeout=10.0, rule=RULE_LIT),
+           budget={"quick": 2400, "thorough": 60000}, timeout=10.0, rule=RULE_LIT),
 ]
 
 
@@ -1288,7 +1303,7 @@ STREAMS = [
 #      passes expanded=True except for cs/nox, so castList/castDictionary see raw brace tokens
 #      only here)
 # ==========================================================================
-DIRECT_TYPES = ["str", "int", "float", "dimen", "list", "list(;)", "list:int", "dict"]
+DIRECT_TYPES = ["str", "int", "float", "dimen", "list", "list(;)", "list:int", "dict", "dict"]
 
 
 @st.composite
